@@ -827,8 +827,14 @@ impl Fiber {
       .expect("Unable to write to stderr");
     }
 
-    let message = error[0].to_obj().to_str();
-    writeln!(log, "{}: {}", &*error.class().name(), &*message).expect("Unable to write to stderr");
+    // an error subclass may never have set a message or may hold any value there
+    if error[0].is_obj_kind(ObjectKind::String) {
+      let message = error[0].to_obj().to_str();
+      writeln!(log, "{}: {}", &*error.class().name(), &*message)
+        .expect("Unable to write to stderr");
+    } else {
+      writeln!(log, "{}", &*error.class().name()).expect("Unable to write to stderr");
+    }
   }
 
   /// Get a value on the stack
